@@ -173,8 +173,10 @@ class G:
         if self.p(0.4):
             g = [{"m": "groupby", "a": [self.name_or_field(TA) if mode == "main" else F(TA, self.ch(COLS))]}
                  for _ in range(self.rng.randint(1, 2))]
-            if cls in ("Query", "PostgreSQLQuery", "OracleQuery") and self.p(0.3):
-                g.append({"m": "rollup", "a": [F(TA, self.ch(COLS))]})
+            if cls in ("Query", "PostgreSQLQuery", "OracleQuery") and self.p(0.35):
+                # rollup() calls anywhere in the FIFO: adjacent ones merge into one ROLLUP(...), others stay separate items
+                for _ in range(self.rng.randint(1, 2)):
+                    g.insert(self.rng.randrange(len(g) + 1), {"m": "rollup", "a": [F(TA, self.ch(COLS))]})
             if cls == "MySQLQuery" and self.p(0.3):
                 g.append({"m": "rollup", "a": [], "kw": {"vendor": "mysql"}})
             A.append({"group": "groupby", "calls": g})
@@ -769,14 +771,29 @@ def accumulation(prog, L, okw, stats):
                 continue
             if m == "select" and any(isinstance(x, str) and x == "*" for c in actor["calls"] for x in c.get("a", [])):
                 continue
-            # full statement vs statements in which only ONE of the calls of this clause is delivered
+            # full statement vs statements in which only ONE unit of this clause is delivered; a unit is one call,
+            # or (GROUP BY) a maximal run of adjacent non-MySQL rollup() calls, which by documentation merge into one item
+            units = [[i] for i in idx]
+            if m == "groupby":
+                if any(c["m"] == "rollup" and (c.get("kw") or {}).get("vendor") == "mysql" for c in actor["calls"]):
+                    continue
+                idx = [i for i, c in enumerate(actor["calls"]) if c["m"] in ("groupby", "rollup")]
+                units = []
+                for i in idx:
+                    if actor["calls"][i]["m"] == "rollup" and units and actor["calls"][units[-1][-1]]["m"] == "rollup" \
+                            and units[-1][-1] == i - 1:
+                        units[-1].append(i)
+                    else:
+                        units.append([i])
+                if len(units) < 2:
+                    continue
             full = items_with(prog, ai, set(idx), clause, ctx, iq, bs)
             if full is None:
                 continue
             parts = []
             ok = True
-            for i in idx:
-                it = items_with(prog, ai, {i}, clause, ctx, iq, bs)
+            for u in units:
+                it = items_with(prog, ai, set(u), clause, ctx, iq, bs)
                 if it is None:
                     ok = False
                     break
@@ -784,8 +801,6 @@ def accumulation(prog, L, okw, stats):
             if not ok:
                 continue
             stats["accumulation_checked"] += 1
-            if m == "groupby" and any(c["m"] in ("rollup", "with_totals") for c in actor["calls"]):
-                continue
             if full != parts:
                 bad.append(("accumulate", m, f"{clause}: {full} != concatenation {parts}"))
         # conjoin
